@@ -294,7 +294,8 @@ def explains(broken_item, found):
     known, _ = vlib.load_findings()  # a known finding never explains a newly broken obligation
     keys = " ".join(v.key for v in found if v.key not in known).lower()
     m = re.search(r"\.v:\d+ ([A-Za-z0-9_']+):", broken_item)
-    if not m:
+    if not m or "was not found in the current environment" in broken_item:
+        # (a missing generated definition is a consequence of a translator unit that failed closed)
         # translator unit / correspondence / build items name no lemma: any new concrete failing input explains them
         return any(v.key not in known for v in found)
     b = m.group(1).lower()
@@ -323,21 +324,28 @@ def replay(ctx, data):
 
 
 MANIFEST_ENTRY = {
-    "text": "Theorems (Coq, every field of characteristic 0, closed under the global context): the finite-difference stencils traced "
-            "from finite_differences (forward, backward, central, forward_central_backward; replicate padding = clamped neighbours; "
-            "division by the spacing included) return the slope of f(i) = a i h + b exactly at all points the scheme supports "
-            "(all but the padded end(s); all points for forward_central_backward) for every length and spacing h <> 0, and 0 resp. a/2 "
-            "at the padded ends; repeated differences return 2a on quadratics at interior points (margin 2); the prewitt/sobel smoothing "
-            "kernels reproduce affine data away from the zero padding and lose mass (2/3, 3/4) at it; in 2-D and 3-D the composed operator "
-            "(smooth other axes, difference along the axis) is exact on affine fields at those points for all shapes; the traced 2-D / 3-D "
-            "determinant (with and without identity), divergence, curl and Lie-bracket formulas equal det(J), det(J+I), trace, the rotation "
-            "vector and Jv u - Ju v; the table-building loop over derivative keys gives every requested key the derivative along its "
-            "sorted letters for arbitrary key lists (subset = all restricted), and permuted (mixed) keys share one value. Tie: Gen/FlowDeriv.v "
-            "is regenerated from image.py / flow.py by symbolic tracing on every run, which also checks sample by sample, on symbolic "
-            "2-D / 3-D data, that spatial_derivatives equals the modelled composition for all six modes, keys up to order 2 and all "
-            "spacing forms, and that flow_derivatives' values do not depend on the other requested keys; the executable model is compared "
-            "inside Coq with the implementation on generated inputs.",
+    "text": "Theorems (Coq, every field of characteristic 0, closed under the global context). 1-D: the stencils traced from "
+            "finite_differences (forward, backward, central, forward_central_backward; replicate padding = clamped neighbours; division "
+            "by the spacing included) return the slope of a i h + b at all points the scheme supports for every length and h <> 0, "
+            "0 resp. a/2 at the padded ends, and 2a for repeated differences of quadratics two points from the ends; the prewitt / sobel "
+            "smoothing reproduces affine data away from its zero padding and loses mass (2/3, 3/4) at it. N-D (D = 2 and D = 3, all six "
+            "modes, all shapes and spacings): the composed operator (smooth the other axes, difference along the axis) gives the partial "
+            "derivatives of affine fields at every point supported along the axis and clear of the zero padding of the other axes; "
+            "for affine vector fields A p + t the Jacobian, jacobian_det with and without identity, divergence, curl and Lie bracket "
+            "assembled from the derivative tensors by the traced formulas equal A, det A, det(A+I), trace A, the rotation vector and "
+            "B u - A v at every point of that region; second derivatives of quadratic fields (all cross terms, pure and mixed sorted "
+            "keys, evaluated as spatial_derivatives does) are exact two points from the boundary; B-spline mode gives the slopes of "
+            "affine coefficient fields at every sample, every stride (model bsd3_at; weights = analytic basis by C14); the traced "
+            "determinant / divergence / curl / Lie formulas equal their definitions; the table-building loop over derivative keys gives "
+            "every requested key the derivative along its sorted letters for arbitrary key lists (subset = all restricted), permuted "
+            "keys share one value. Tie: Gen/FlowDeriv.v is regenerated from image.py / flow.py by symbolic tracing on every run, which "
+            "also checks sample by sample, on symbolic 2-D / 3-D data, that spatial_derivatives equals the modelled composition for all "
+            "six modes, keys up to order 2 and all spacing forms, that mode='gaussian' (symbolic kernels) divides d/dx_a by spacing[a], "
+            "and that flow_derivatives' values do not depend on the other requested keys; the executable model (including the whole-field "
+            "operators det/div/curl/lie{2,3}_field) is compared inside Coq with the implementation on generated inputs.",
     "note": "Partial: key strings are parsed by regular expressions outside the model (validated by the translator's checks and the "
-            "exploration); B-spline mode is proved in C14. Known findings: prewitt / sobel are not exact at boundary points of the other axes "
-            "(zero-padded smoothing; the faithful model proves C12_every_grid_point_refuted and the exact-in-the-interior theorems).",
+            "exploration); mode='gaussian' is outside the property's mode list and has no exactness theorem (its spacing handling is "
+            "traced and searched); float32 conversion of the spacing is outside the model. Known findings: prewitt / sobel are not exact "
+            "at boundary points of the other axes (zero-padded smoothing; the faithful model proves C12_every_grid_point_refuted and "
+            "the exact-in-the-interior theorems).",
 }
